@@ -1,4 +1,5 @@
 import SJ.Proofs.Tables
+import SJ.Proofs.ParseWF
 import SJ.Proofs.Located
 import SJ.Proofs.Rebuild
 import SJ.Proofs.DecodeSound
@@ -50,5 +51,18 @@ theorem C17_gap_exact (pj : PJ) (i e q : Nat) :
     jumps over a live word); this is why the dense scanner is the one used. -/
 theorem C17_chain_checker_unsound : wfCheck DecodeSound.cexPJ = true ∧ ¬ ∃ d, SJ.Layout.WF DecodeSound.cexPJ d :=
   DecodeSound.chain_checker_unsound
+
+
+open SJ.Layout SJ.ParseDefs in
+/-- **Every tape returned by `Parse` / `ParseND` obeys the documented format** — for every input the parser accepts
+    (also those outside C01's claim), both string modes: the tape denotes a document (`WF`: root pairs pointing at
+    each other, containers nested with matching start/end pointers, strings with in-range references, numbers with
+    their value word, no other tags), the executable checker accepts it, and `Message` is the trimmed input.
+    `SizeOK`: the input is shorter than 2^50 bytes. Proved through the ghost document built alongside stage 2
+    (`Stage2WF.stage2_wf`), the scanner facts and the index-buffer partition. -/
+theorem C17_parse_wf (cfg : Cfg) (nd : Bool) (input : Bytes) (pj : PJ) (hsz : SizeOK (trimSpace input))
+    (h : parseAny cfg nd input = .ok pj) : (∃ d, WF pj d) ∧ wfCheckD pj = true ∧ pj.msg = trimSpace input := by
+  obtain ⟨lvs, _, _, _, hwf, hc, _, hm⟩ := SJ.ParseWF.parse_wf cfg nd input pj hsz h
+  exact ⟨⟨_, hwf⟩, hc, hm⟩
 
 end SJ.Properties.C17
